@@ -10,6 +10,9 @@ Engines per binary:
   dfs      literal enumeration of all command sequences of depth <= 2 (quick: 3 configurations per binary; thorough: all)
            and depth <= 3 (thorough: one configuration per compiler configuration, sharded),
   random   rapidcheck command lists resolved against the model state (preconditions always satisfied), with shrinking.
+
+Value arguments are passed from a local copy and, for push_back / insert(pos,v) / insert(pos,n,v) / resize(n,v) (the calls
+std::vector defines for that), also as an lvalue naming an element of the same view (commands *_self; all three engines).
 """
 import concurrent.futures as cf
 import json
@@ -78,13 +81,24 @@ def run(t, budget=1.0):
         "resize(n), resize(n,v), resize(n,default_init), assign(n,v), assign(first,last) (3 categories), assign(ilist), "
         "assign_string, assign_range (vector&, const forward_list&, vector&&), clear; every command satisfies the "
         "documented preconditions (valid for the vector, result fits the buffer and max_size()). "
+        "Self-referencing value arguments: push_back_self, insert_self(pos,.), insert_n_self(pos,n,.), resize_v_self(n,.) call "
+        "the same overloads as push_back/insert/insert_n/resize_v with an lvalue that names an element of the same view as the "
+        "value argument, written as d[k] (at<k>), d.front(), d.back() or *(d.begin()+k) (it<k>), e.g. d.insert(d.begin(), d.back()); "
+        "generated only on a non-empty view (k < size); the std::vector model receives the element's value read before the call "
+        "(std::vector defines these four calls for an argument that refers into the container; assign(n,v) and iterator ranges "
+        "into the view itself are not valid for a vector and are not generated). Classes selfref_<form> count them per form, "
+        "selfref_element_moved_by_insert the insertions (count>0) whose referenced element lies at or behind the insertion "
+        "position, i.e. is moved by the insertion itself. "
         "(1) closure [exhaustive]: capacity 4, values {a,b}: breadth-first over every reachable buffer state (length "
         "prefix + all 4 payload bytes, 1280 states) x every command; the view holds no state besides the buffer, so this "
         "covers command sequences of every depth (in particular depth<=3 from every reachable state); case = BFS path + command. "
         "(2) dfs [exhaustive]: literal enumeration of all sequences of depth<=2 (thorough: also depth<=3 for one configuration "
         "per compiler configuration) from each of the 31 states {a,b}^0..4. "
+        "Both enumerations contain every *_self command for every element k and position/count (closure: all four reference "
+        "forms; dfs: d[k], front(), back()). "
         "(3) random: rapidcheck tape -> abstract commands resolved against the current model size (positions begin/end/middle/"
-        "random, counts 0/1/fill/fill-1/random, ranges empty/to-end/random), capacities 0..40, 250..261 (uint8 length limit "
+        "random, counts 0/1/fill/fill-1/random, ranges empty/to-end/random; *_self: reference form uniform, element uniform or one of "
+        "the last three), capacities 0..40, 250..261 (uint8 length limit "
         "254/255) and 65530..65539 (uint16 limit), arbitrary element bytes, up to 250 commands (40 on the 64 KiB buffers; element-wise input-iterator inserts capped at 300 elements). "
         "non-trivial = sequence that executed >=2 different mutator overloads and used a boundary position (begin or end) "
         "in a position-taking command; distinct by (type configuration, initial state, concrete command text); enumerated "
